@@ -490,7 +490,11 @@ def _blocks(text):
 def _lower_one_guard(text, m, ctor, dtor):
     blocks = _blocks(text)
     p = m.start()
-    encl = [b for b in blocks if b[0] < p and b[1] > p]
+    if p == 0 and text[0] == "{":
+        # parameter guard: the scope is the whole function body; decl regex matched the opening brace
+        encl = [b for b in blocks if b[0] == 0]
+    else:
+        encl = [b for b in blocks if b[0] < p and b[1] > p]
     if not encl:
         raise LiftError("guard declaration outside any block")
     B = max(encl, key=lambda b: b[0])
